@@ -100,7 +100,10 @@ def merge_kw(m1, m2):
 
 def to_call(sig, named, va, extra):
   if not va:
-    return {'args': [], 'kwargs': named + extra}
+    po = [p[0] for p in sig['pos'][:sig.get('posonly', 0)]]
+    d = dict((k, v) for k, v in named)
+    return {'args': [d[n] for n in po if n in d],
+            'kwargs': [kv for kv in named if kv[0] not in po] + extra}
   pos = [p[0] for p in sig['pos']]
   d = dict((k, v) for k, v in named)
   return {'args': [d[n] for n in pos if n in d] + va,
@@ -129,8 +132,10 @@ def param_list(sig, ann):
   t = ': int' if ann else ''
   eq = ' = ' if ann else '='
   parts = []
-  for n, d in sig['pos']:
+  for i, (n, d) in enumerate(sig['pos']):
     parts.append('%s%s%s' % (n, t, '' if d is None else '%s%d' % (eq, d)))
+    if i + 1 == sig.get('posonly', 0):
+      parts.append('/')
   if sig['varargs'] is not None:
     parts.append('*%s%s' % (sig['varargs'], t))
   elif sig['kwonly']:
@@ -189,6 +194,7 @@ def canon_assignment(sig, loc):
 _KINDS = [
     (re.compile(r'takes (from )?\d+ (to \d+ )?positional arguments? but \d+ '), 'too_many_positional'),
     (re.compile(r'got multiple values for argument'), 'multiple_values'),
+    (re.compile(r'got some positional-only arguments passed as keyword arguments'), 'posonly_as_keyword'),
     (re.compile(r'got an unexpected keyword argument'), 'unexpected_keyword'),
     (re.compile(r'missing \d+ required (positional|keyword-only) arguments?'), 'missing_required'),
 ]
@@ -295,8 +301,11 @@ class C18(Prop):
       pos.append([POS_NAMES[i], rng.below(10) if i >= npos - ndef else None])
     nkw = min(rng.weighted([(5, 0), (4, 1), (3, 2), (1, 3)]), max_kw)
     kwonly = [[KW_NAMES[i], rng.below(10) if rng.chance(0.5) else None] for i in range(nkw)]
-    return {'pos': pos, 'varargs': VARARGS if rng.chance(0.4) else None,
-            'kwonly': kwonly, 'varkw': VARKW if rng.chance(0.4) else None}
+    sig = {'pos': pos, 'varargs': VARARGS if rng.chance(0.4) else None,
+           'kwonly': kwonly, 'varkw': VARKW if rng.chance(0.4) else None}
+    if npos and rng.chance(0.15):
+      sig['posonly'] = rng.randint(1, npos)     # def f(a, b, /, c): leading positional-only parameters
+    return sig
 
   def gen_valid_call(self, rng, sig, partial=0.0):
     """A call that binds (each required parameter supplied unless dropped with prob. `partial`)."""
@@ -673,16 +682,35 @@ class C18(Prop):
     return {'signature': sig,
             'what': '%s: calling the original directly gives %s, the symbolic object gives %s' % (stage, expected, got)}
 
+  def passes_posonly_by_keyword(self, case):
+    sig = case['sig']
+    po = {p[0] for p in sig['pos'][:sig.get('posonly', 0)]}
+    calls = [case['c1']] + ([case['c2']] if case['kind'] == 'functor' else [])
+    return any(k in po for c in calls for k, _ in c['kwargs'])
+
   def oracle(self, case, out):
+    obs = out['obs']
+    f = self._oracle_core(case, out)
+    if f and self.passes_posonly_by_keyword(case):
+      # F62: symbolic fields are addressable by name, also those of positional-only parameters
+      return {'signature': 'posonly-keyword',
+              'what': 'a positional-only parameter is passed by keyword: ' + f['what']}
+    if f:
+      return f
+    # Generated __init__ signature = signature of the original.
+    if obs['init_signature'] != obs['plain_signature']:
+      relaxed = [[n, 'POSITIONAL_OR_KEYWORD' if k == 'POSITIONAL_ONLY' else k, d, h]
+                 for n, k, d, h in obs['plain_signature']]
+      return {'signature': 'posonly-signature' if obs['init_signature'] == relaxed else 'generated-init-signature',
+              'what': 'inspect.signature(cls.__init__) = %s, original: %s' % (obs['init_signature'], obs['plain_signature'])}
+    return None
+
+  def _oracle_core(self, case, out):
     m, obs = out['model'], out['obs']
     sig = case['sig']
     if obs.get('bind_disagrees'):
       return {'signature': 'interpreter-self-disagreement',
               'what': 'inspect.signature().bind differs from the real call: %s' % obs['bind_disagrees'][:1]}
-    # Generated __init__ signature = signature of the original.
-    if obs['init_signature'] != obs['plain_signature']:
-      return {'signature': 'generated-init-signature',
-              'what': 'inspect.signature(cls.__init__) = %s, original: %s' % (obs['init_signature'], obs['plain_signature'])}
     if self.uses_varargs_name_as_keyword(case):
       return None      # documented precondition: the *args parameter is a symbolic field of that name
     c1 = case['c1']
@@ -735,6 +763,11 @@ class C18(Prop):
         return {'signature': 'roundtrip:%s' % k, 'what': '%s = %s, original %s' % (k, obs[k], m['call'])}
     # the two-stage call
     ignore = c2['ignore'] if c2['ignore'] is not None else c1['ignore']
+    if not (c1['args'] or c1['kwargs']) and not ignore:
+      # late binding: F()(*a, **k) is f(*a, **k), literally
+      f = self._mismatch('late-binding', m['py_c2'], m['call'])
+      if f:
+        return f
     if m['effective'] is None:
       # the call-time arguments cannot be distributed over the parameters: same kind of error
       expected = obs['py_c2_dropped'] if ignore else m['py_c2']
@@ -784,7 +817,10 @@ class C18(Prop):
     h = ['kind:%s' % case['kind'], 'mode:%s' % case.get('mode', '?'),
          'npos:%d' % len(sig['pos']), 'nkwonly:%d' % len(sig['kwonly']),
          'varargs:%s' % (sig['varargs'] is not None), 'varkw:%s' % (sig['varkw'] is not None),
-         'pos-defaults:%d' % sum(1 for _, d in sig['pos'] if d is not None)]
+         'pos-defaults:%d' % sum(1 for _, d in sig['pos'] if d is not None),
+         'posonly:%d' % sig.get('posonly', 0)]
+    if self.passes_posonly_by_keyword(case):
+      h.append('posonly-passed-by-keyword')
     if case.get('ann'):
       h.append('annotated%s' % ('+auto_typing' if case.get('auto_typing') else ''))
     if not case.get('tc_call', True):
